@@ -594,6 +594,18 @@ func (fr *frame) selectInstr(x *ssa.Select, st *bstate) {
 	}
 	fr.vals[x] = v
 	f.exact["Select"]++
+	// a receive from ctx.Done() that is taken means the context has ended
+	for i, s := range x.States {
+		if c, ok := s.Chan.(*ssa.Call); ok && c.Call.IsInvoke() && c.Call.Method.Name() == "Done" {
+			if g, ok := f.e.specs.ghosts["ctxdone"]; ok && len(g.Params) == 1 {
+				cv := fr.val(c.Call.Value)
+				if cv.K == KAny {
+					key := f.ghostKey("ctxdone", sortBool, true, sortAny)
+					f.assume(st, implies(eq(idx, intLit(int64(i))), app("select", f.hs.read(st.heap, key), cv.Tm)), "a taken receive from ctx.Done() means the context has ended")
+				}
+			}
+		}
+	}
 	fr.noteSelect(x, st)
 }
 
@@ -922,6 +934,9 @@ func (fr *frame) binop(x *ssa.BinOp, st *bstate) Val {
 func (f *FnCtx) ghostKey(name, elemSort string, indexed bool, idxSort string) string {
 	key := "G." + name
 	if _, ok := f.hs.sorts[key]; !ok {
+		if g, ok := f.e.specs.ghosts[name]; ok && g.Stable {
+			f.hs.final[key] = true
+		}
 		if indexed {
 			f.hs.regKey(key, "(Array "+idxSort+" "+elemSort+")")
 		} else {
